@@ -36,6 +36,7 @@ TStep == /\ l <= Len(Tr)
          /\ Clause("dense-image", Images(heap', env'))
          /\ Clause("identity", AliasMatches(env', E.same))
          /\ Clause("pattern", Pinned)
+         /\ Clause("index-arguments-unchanged", E.idxok)
 TDone == l = Len(Tr) + 1 /\ PrintT(<<"ACCEPT", tid>>) /\ UNCHANGED svars
 TInit == SInit /\ tid \in 1..Len(Traces) /\ l = 1
 TNext == (TStep \/ TDone) /\ l' = l + 1 /\ UNCHANGED tid
